@@ -142,6 +142,8 @@ def main():
                     probs.append(f"COVERAGE rule={k}: {a[k]} obligations on the original tree, {b.get(k)} after renaming")
         except Exception as e:
             probs.append(f"COVERAGE not compared: {type(e).__name__}")
+        if out.returncode != 0 and not probs:
+            probs.append(f"exit code {out.returncode}: a known finding is keyed by something a rename changes (it is reported as a violation on the renamed tree)")
         return p, out.returncode, probs
 
     with ThreadPoolExecutor(max_workers=8) as ex:
